@@ -10,7 +10,10 @@
    MaxRequestLength = max deciding about a request whose sender announces [decl] (None: no
    announcement -- chunked, fragmented) and writes [sent] body bytes; [framed tr decl sent] is
    the body that belongs to that request according to the layer below (Model/Limit.v);
-   [sites] says which quantity each handler compares -- [pinned_sites] is what the pinned tree
+   [k] is the class of the request as far as a handler can tell before decoding it: the HTTP
+   method (GET or not) and the flag bit of the index word of a socket / websocket / udp header;
+   every theorem quantifies over all of them, not only over what the stock clients produce.
+   [sites] says which quantity each handler compares on the path of each class of request -- [pinned_sites] is what the pinned tree
    does (re-read from the sources on every check), [original_sites] what it did before the fix
    commits 72ffd23 / e18593a (historical).  [serve] adds the invocation log (IO plugins, function). *)
 From Coq Require Import List ZArith Bool Lia Init.Byte.
@@ -20,43 +23,48 @@ Open Scope Z_scope.
 
 (* ------------------------------------------------------------ never processed ---------- *)
 
-(* FULL STATEMENT, for every table of comparison sites: the property's first half holds on a
-   transport exactly when its handler looks at the quantity that delimits the request. *)
-Theorem C13_never_processed_iff_covered : forall sites tr,
-  (forall max decl sent n valid, framed tr decl sent = Some n -> n > max ->
-     is_process (admission sites tr max decl sent) = false /\
-     snd (serve sites tr max decl sent valid) = [])
-  <-> covers tr (sites tr) = true.
+(* FULL STATEMENT, for every table of comparison sites and every class of request (method,
+   index flag, length announced or not) that has requests at all: the property's first half holds
+   for that class on that transport exactly when the sites on its path look at the quantity that
+   delimits the request. *)
+Theorem C13_never_processed_iff_covered : forall sites tr k chunked,
+  expressible tr k chunked = true ->
+  ((forall max decl sent n valid, is_none decl = chunked -> framed tr k decl sent = Some n -> n > max ->
+     is_process (admission sites tr max k decl sent) = false /\
+     snd (serve sites tr max k decl sent valid) = [])
+  <-> covers tr chunked (sites tr k chunked) = true).
 Proof. exact never_processed_stmt_iff. Qed.
 Print Assumptions C13_never_processed_iff_covered.
 
-(* and then it is not merely "not processed" but refused, for all limits, sizes, declarations *)
-Theorem C13_never_processed : forall sites tr max decl sent n,
-  covers tr (sites tr) = true -> framed tr decl sent = Some n -> n > max ->
-  rejected (admission sites tr max decl sent) = true.
+(* and then it is not merely "not processed" but refused, for all limits, sizes, declarations,
+   methods and index words *)
+Theorem C13_never_processed : forall sites tr max k decl sent n,
+  covers tr (is_none decl) (sites tr k (is_none decl)) = true ->
+  framed tr k decl sent = Some n -> n > max ->
+  rejected (admission sites tr max k decl sent) = true.
 Proof. exact never_processed_covered. Qed.
 Print Assumptions C13_never_processed.
 
 (* THE PINNED TREE: all seven transports, every limit, every size, every declaration
-   (truthful, absent, smaller, larger) -- unconditionally *)
-Theorem C13_never_processed_pinned : forall tr max decl sent n,
-  framed tr decl sent = Some n -> n > max ->
-  rejected (admission pinned_sites tr max decl sent) = true.
+   (truthful, absent, smaller, larger), every method, every index word -- unconditionally *)
+Theorem C13_never_processed_pinned : forall tr max k decl sent n,
+  framed tr k decl sent = Some n -> n > max ->
+  rejected (admission pinned_sites tr max k decl sent) = true.
 Proof. exact never_processed_pinned. Qed.
 Print Assumptions C13_never_processed_pinned.
 
 (* udp: the datagram that got through before fix 5ee4f50 (100 body bytes, header says 5, limit
    10) is dropped as invalid; the one that tells the truth is refused *)
-Theorem C13_udp_former_witness :
-  serve pinned_sites Udp 10 (Some 5) 100 false = (Malformed, []) /\
-  serve pinned_sites Udp 10 (Some 100) 100 true = (RejectInBand, []).
+Theorem C13_udp_former_witness : forall k,
+  serve pinned_sites Udp 10 k (Some 5) 100 false = (Malformed, []) /\
+  serve pinned_sites Udp 10 k (Some 100) 100 true = (RejectInBand, []).
 Proof. exact udp_former_witness. Qed.
 Print Assumptions C13_udp_former_witness.
 
 (* refused means: nothing runs *)
-Theorem C13_refused_runs_nothing : forall sites tr max decl sent valid,
-  rejected (admission sites tr max decl sent) = true ->
-  snd (serve sites tr max decl sent valid) = [].
+Theorem C13_refused_runs_nothing : forall sites tr max k decl sent valid,
+  rejected (admission sites tr max k decl sent) = true ->
+  snd (serve sites tr max k decl sent valid) = [].
 Proof. exact rejected_log_empty. Qed.
 Print Assumptions C13_refused_runs_nothing.
 
@@ -64,15 +72,15 @@ Print Assumptions C13_refused_runs_nothing.
 
 (* every table, every transport, every limit: a request of 0..max bytes whose sender tells the
    truth about its length (or legitimately leaves it out) reaches Service.Handle whole *)
-Theorem C13_processed_at_limit : forall sites tr max decl sent,
-  truthful tr decl sent = true -> 0 <= sent <= max ->
-  admission sites tr max decl sent = Process sent /\ framed tr decl sent = Some sent.
+Theorem C13_processed_at_limit : forall sites tr max k decl sent,
+  truthful tr k decl sent = true -> 0 <= sent <= max ->
+  admission sites tr max k decl sent = Process sent /\ framed tr k decl sent = Some sent.
 Proof. exact processed_at_limit. Qed.
 Print Assumptions C13_processed_at_limit.
 
-Theorem C13_processed_log : forall sites tr max decl sent valid,
-  truthful tr decl sent = true -> 0 <= sent <= max ->
-  snd (serve sites tr max decl sent valid) = handle_log valid sent.
+Theorem C13_processed_log : forall sites tr max k decl sent valid,
+  truthful tr k decl sent = true -> 0 <= sent <= max ->
+  snd (serve sites tr max k decl sent valid) = handle_log valid sent.
 Proof. exact processed_log. Qed.
 Print Assumptions C13_processed_log.
 
@@ -117,10 +125,10 @@ Proof. exact too_large_only_for_the_text. Qed.
 Print Assumptions C13_too_large_only_for_the_text.
 
 (* end to end *)
-Theorem C13_oversize_end_to_end : forall sites tr max decl sent n valid,
-  covers tr (sites tr) = true -> framed tr decl sent = Some n -> n > max ->
-  snd (serve sites tr max decl sent valid) = [] /\
-  client_decode (reply_of (admission sites tr max decl sent)) = OTooLarge.
+Theorem C13_oversize_end_to_end : forall sites tr max k decl sent n valid,
+  covers tr (is_none decl) (sites tr k (is_none decl)) = true -> framed tr k decl sent = Some n -> n > max ->
+  snd (serve sites tr max k decl sent valid) = [] /\
+  client_decode (reply_of (admission sites tr max k decl sent)) = OTooLarge.
 Proof. exact oversize_end_to_end. Qed.
 Print Assumptions C13_oversize_end_to_end.
 
@@ -159,9 +167,10 @@ Proof. exact (fun max => recv_frames_sound (Server max)). Qed.
 Print Assumptions C13_stream_actual_is_declared.
 
 (* a header announcing more than the limit is answered before one body byte is read *)
+(* (every index word, bit 31 set or clear) *)
 Theorem C13_stream_oversize_header : forall max d i rest,
-  0 <= d < 2147483648 -> 0 <= i < 2147483648 -> d > max ->
-  recv_frames (Server max) (sock_make_header d i ++ rest) = ([], EndTooLarge i).
+  0 <= d < 2147483648 -> 0 <= i < 4294967296 -> d > max ->
+  recv_frames (Server max) (sock_make_header d i ++ rest) = ([], EndTooLarge (i mod 2147483648)).
 Proof. exact sock_oversize_bytes. Qed.
 Print Assumptions C13_stream_oversize_header.
 
@@ -173,31 +182,34 @@ Proof. exact frames_at_limit_delivered. Qed.
 Print Assumptions C13_stream_frames_within_limit_delivered.
 
 (* level A is the projection of the byte-level receive code *)
-Theorem C13_admission_refines_socket : forall max d i (body : list byte),
-  0 <= d < 2147483648 -> 0 <= i < 2147483648 ->
+(* over the WHOLE header space that passes the checksum: every 31-bit length field, every 32-bit
+   index word (flag bit set or clear), not only the headers the stock client produces *)
+Theorem C13_admission_refines_socket : forall max d i k (body : list byte),
+  0 <= d < 2147483648 -> 0 <= i < 4294967296 ->
   sock_server_verdict max (sock_make_header d i ++ body) =
-  admission pinned_sites Tcp max (Some d) (Z.of_nat (length body)).
+  admission pinned_sites Tcp max k (Some d) (Z.of_nat (length body)).
 Proof. exact sock_refines. Qed.
 Print Assumptions C13_admission_refines_socket.
 
-Theorem C13_admission_refines_websocket : forall max i (body : list byte),
-  0 <= i < 2147483648 ->
+Theorem C13_admission_refines_websocket : forall max i k (body : list byte),
+  0 <= i < 4294967296 -> r_flag k = negb (i <? 2147483648) ->
   ws_server_verdict max (ws_frame i body) =
-  admission pinned_sites Websocket max None (Z.of_nat (length body)).
+  admission pinned_sites Websocket max k None (Z.of_nat (length body)).
 Proof. exact ws_refines. Qed.
 Print Assumptions C13_admission_refines_websocket.
 
-Theorem C13_admission_refines_udp : forall max buf d i (body : list byte),
-  0 <= d < 65536 -> 0 <= i < 32768 -> (8 + length body <= length buf)%nat ->
+Theorem C13_admission_refines_udp : forall max buf d i k (body : list byte),
+  0 <= d < 65536 -> 0 <= i < 65536 -> (8 + length body <= length buf)%nat ->
   udp_server_verdict max buf (udp_make_header d i ++ body) =
-  admission pinned_sites Udp max (Some d) (Z.of_nat (length body)).
+  admission pinned_sites Udp max k (Some d) (Z.of_nat (length body)).
 Proof. exact udp_refines. Qed.
 Print Assumptions C13_admission_refines_udp.
 
-Theorem C13_admission_refines_nethttp : forall max decl (wire : list byte),
+(* (every method: the handler does not consult it before the limit tests) *)
+Theorem C13_admission_refines_nethttp : forall max k decl (wire : list byte),
   match decl with Some d => 0 <= d | None => True end ->
   http_server_verdict max decl wire =
-  admission pinned_sites NetHttp max decl (Z.of_nat (length wire)).
+  admission pinned_sites NetHttp max k decl (Z.of_nat (length wire)).
 Proof. exact http_refines. Qed.
 Print Assumptions C13_admission_refines_nethttp.
 
@@ -227,53 +239,83 @@ Print Assumptions C13_udp_former_witness_bytes.
 
 (* ------------------------------------------------------------ non-vacuity -------------- *)
 
+Definition plain : rclass := {| r_get := false; r_flag := false |}.
+Definition get : rclass := {| r_get := true; r_flag := false |}.
+Definition flagged : rclass := {| r_get := false; r_flag := true |}.
+
 Example sites_of_the_pinned_tree :
-  map (fun tr => covers tr (pinned_sites tr)) all_transports = [true; true; true; true; true; true; true] /\
-  map (fun tr => covers tr (original_sites tr)) all_transports = [true; false; false; true; true; true; true].
+  forallb (fun tr => forallb (fun k => covers tr true (pinned_sites tr k true) && covers tr false (pinned_sites tr k false))
+                             all_classes) all_transports = true /\
+  map (fun tr => covers tr true (original_sites tr plain true)) all_transports = [true; false; false; true; true; true; true] /\
+  map (fun tr => covers tr false (original_sites tr plain false)) all_transports = [true; true; true; true; true; true; true].
+Proof. repeat split. Qed.
+
+(* the sizes of the property's quantifier around one limit, truthful declarations, tcp, both
+   values of the index flag *)
+Example sizes_around_the_limit_tcp :
+  map (fun n => admission pinned_sites Tcp 100 plain (Some n) n) [99; 100; 101; 1000] =
+  [Process 99; Process 100; RejectInBand; RejectInBand] /\
+  map (fun n => admission pinned_sites Tcp 100 flagged (Some n) n) [99; 100; 101; 1000] =
+  [Process 99; Process 100; RejectInBand; RejectInBand].
 Proof. split; reflexivity. Qed.
 
-(* the sizes of the property's quantifier around one limit, truthful declarations, tcp *)
-Example sizes_around_the_limit_tcp :
-  map (fun n => admission pinned_sites Tcp 100 (Some n) n) [99; 100; 101; 1000] =
-  [Process 99; Process 100; RejectInBand; RejectInBand].
-Proof. reflexivity. Qed.
-
-(* the four declarations, net/http, limit 10 *)
-Example declarations_nethttp :
-  admission pinned_sites NetHttp 10 (Some 100) 100 = Reject413 /\     (* truthful *)
-  admission pinned_sites NetHttp 10 None 100 = Reject413 /\           (* absent: chunked *)
-  admission pinned_sites NetHttp 10 (Some 5) 100 = Process 5 /\       (* smaller: the request is its first 5 bytes *)
-  admission pinned_sites NetHttp 10 (Some 100) 7 = Reject413 /\       (* larger, above the limit *)
-  admission pinned_sites NetHttp 10 (Some 9) 7 = Reject400 /\         (* larger, within the limit: body ends early *)
-  admission pinned_sites NetHttp 10 None 10 = Process 10.             (* chunked, at the limit *)
-Proof. repeat split. Qed.
+(* the four declarations, net/http, limit 10, POST and GET alike *)
+Example declarations_nethttp : forall k,
+  admission pinned_sites NetHttp 10 k (Some 100) 100 = Reject413 /\     (* truthful *)
+  admission pinned_sites NetHttp 10 k None 100 = Reject413 /\           (* absent: chunked *)
+  admission pinned_sites NetHttp 10 k (Some 5) 100 = Process 5 /\       (* smaller: the request is its first 5 bytes *)
+  admission pinned_sites NetHttp 10 k (Some 100) 7 = Reject413 /\       (* larger, above the limit *)
+  admission pinned_sites NetHttp 10 k (Some 9) 7 = Reject400 /\         (* larger, within the limit: body ends early *)
+  admission pinned_sites NetHttp 10 k None 10 = Process 10.             (* chunked, at the limit *)
+Proof. intros k. repeat split. Qed.
 
 (* HISTORICAL (before the fix commits 72ffd23 / e18593a, keys http-chunked-body-bypasses-limit,
    fasthttp-chunked-body-bypasses-limit): a 100-byte chunked POST against a limit of 10 reached the
    IO plugins and the function; the same request is refused now.  corpus/C13-*-chunked-over-limit.json *)
 Example historical_chunked_bypass_witness :
-  serve original_sites NetHttp 10 None 100 true = (Process 100, [EvIOPlugin 100; EvInvoke]) /\
-  serve original_sites FastHttp 10 None 100 true = (Process 100, [EvIOPlugin 100; EvInvoke]) /\
-  serve pinned_sites NetHttp 10 None 100 true = (Reject413, []) /\
-  serve pinned_sites FastHttp 10 None 100 true = (Reject413, []).
+  serve original_sites NetHttp 10 plain None 100 true = (Process 100, [EvIOPlugin 100; EvInvoke]) /\
+  serve original_sites FastHttp 10 plain None 100 true = (Process 100, [EvIOPlugin 100; EvInvoke]) /\
+  serve pinned_sites NetHttp 10 plain None 100 true = (Reject413, []) /\
+  serve pinned_sites FastHttp 10 plain None 100 true = (Reject413, []).
 Proof. exact historical_chunked_bypass. Qed.
+
+(* tables whose sites depend on the class of the request (what the extractor produces when a
+   limit test is guarded by the method, by ContentLength < 0, or by parseHeader's ok): the class
+   the guard leaves out is not covered, C13_never_processed_iff_covered then says the property is
+   false there, and the request that gets through is the one the check sends *)
+Example class_dependent_sites_method :
+  covers NetHttp false (example_method_sites NetHttp get false) = false /\
+  covers NetHttp false (example_method_sites NetHttp plain false) = true /\
+  covers NetHttp true (example_method_sites NetHttp get true) = true /\
+  admission example_method_sites NetHttp 10 get (Some 100) 100 = Process 100 /\
+  admission example_method_sites NetHttp 10 plain (Some 100) 100 = Reject413.
+Proof. exact example_method_sites_gap. Qed.
+
+Example class_dependent_sites_flag :
+  covers Tcp false (example_flag_sites Tcp flagged false) = false /\
+  covers Tcp false (example_flag_sites Tcp plain false) = true /\
+  admission example_flag_sites Tcp 10 flagged (Some 100) 100 = Process 100 /\
+  admission example_flag_sites Tcp 10 plain (Some 100) 100 = RejectInBand.
+Proof. exact example_flag_sites_gap. Qed.
 
 (* the hypotheses are satisfiable by ordinary requests *)
 Example hypotheses_satisfiable :
-  framed NetHttp (Some 100) 100 = Some 100 /\ framed NetHttp None 100 = Some 100 /\ 100 > 10 /\
-  framed Udp (Some 100) 100 = Some 100 /\
-  truthful Websocket None 100 = true /\ truthful Udp (Some 7) 7 = true /\ 0 <= 7 <= 10.
+  framed NetHttp get (Some 100) 100 = Some 100 /\ framed NetHttp plain None 100 = Some 100 /\ 100 > 10 /\
+  framed Udp flagged (Some 100) 100 = Some 100 /\ framed Tcp flagged (Some 100) 100 = Some 100 /\
+  expressible NetHttp get true = true /\ expressible Tcp flagged false = true /\
+  truthful Websocket plain None 100 = true /\ truthful Udp flagged (Some 7) 7 = true /\ 0 <= 7 <= 10.
 Proof. repeat split; try reflexivity; lia. Qed.
 
 Example teardown_race_witness :
-  caller_outcome false Unix (admission pinned_sites Unix 65536 (Some 655360) 655360) true TeardownFirst = OOtherError /\
-  caller_outcome false Unix (admission pinned_sites Unix 65536 (Some 655360) 655360) true FrameFirst = OTooLarge /\
-  caller_outcome true Unix (admission pinned_sites Unix 65536 (Some 655360) 655360) true TeardownFirst = OTooLarge.
+  caller_outcome false Unix (admission pinned_sites Unix 65536 plain (Some 655360) 655360) true TeardownFirst = OOtherError /\
+  caller_outcome false Unix (admission pinned_sites Unix 65536 plain (Some 655360) 655360) true FrameFirst = OTooLarge /\
+  caller_outcome true Unix (admission pinned_sites Unix 65536 plain (Some 655360) 655360) true TeardownFirst = OTooLarge.
 Proof. repeat split. Qed.
 
 (* bytes: a real header announcing 11 against a limit of 10, then anything *)
 Example oversize_header_bytes :
   recv_frames (Server 10) (sock_make_header 11 7 ++ repeat "x"%byte 3) = ([], EndTooLarge 7) /\
+  recv_frames (Server 10) (sock_make_header 11 (2147483648 + 7) ++ repeat "x"%byte 3) = ([], EndTooLarge 7) /\
   sock_client (sock_reject_frame 7) = OTooLarge /\
   fst (recv_frames (Server 10) (sock_frame 7 (repeat "x"%byte 10))) = [(7, repeat "x"%byte 10)].
 Proof. vm_compute. repeat split. Qed.
